@@ -227,6 +227,9 @@ def judge(d, ws, res):
             Pr = {nd: complex(rm.get_potential(nd)) for nd in nodes}
             Vr = {i: complex(rm.get_voltage(i)) for i in ids}
             Ir = {i: complex(rm.get_current(i)) for i in ids}
+            # the RMS object asked again, currents first and in the opposite order
+            again = ([complex(rm.get_current(i)) for i in reversed(ids)], [complex(rm.get_voltage(i)) for i in reversed(ids)],
+                     [complex(rm.get_potential(nd)) for nd in reversed(nodes)])
         except Exception as e:
             add_violation(res, "phasor_exact", case, "a solution", "%s: %s" % (type(e).__name__, e), "analysis raised at w=%s" % w, kind="exception:" + type(e).__name__)
             continue
@@ -259,6 +262,10 @@ def judge(d, ws, res):
                     add_violation(res, "phasor_exact", case, exp_i[i], I[i], "peak current of %s at w=%s" % (i, w))
                     bad = True
                     break
+        bump(res["hits"], "query_order")
+        first = ([Ir[i] for i in reversed(ids)], [Vr[i] for i in reversed(ids)], [Pr[nd] for nd in reversed(nodes)])
+        if repr(first) != repr(again):
+            add_violation(res, "query_order", case, first, again, "answers of one solution object depend on the order in which they are asked for (w=%s)" % w)
         bump(res["hits"], "rms_is_peak_over_sqrt2")
         r2 = math.sqrt(2)
         for nd in nodes:
